@@ -250,6 +250,13 @@ def build_family(case: dict[str, Any]) -> tuple[dict[str, str], str]:
     style = case.get("names", "plain")
     names = [{"plain": f"t{i}", "dirs": f"layouts/sub{i}/t{i}", "samebase": f"d{i}/t"}[style] for i in range(n)]
     tpls: dict[str, str] = {}
+    if kind == "mixed-long":
+        for i, nm in enumerate(names):
+            nxt = names[(i + 1) % n]
+            tag = case["tags"][i]
+            call = "{% render '" + nxt + "' for xs %}" if tag == "render-for" else "{% " + tag + " '" + nxt + "' %}"
+            tpls[nm] = f"<{nm}>" + call
+        return tpls, names[0]
     if kind in ("include", "render", "mixed"):
         for i, nm in enumerate(names):
             nxt = names[(i + 1) % n]
@@ -512,6 +519,32 @@ def family_cases(ctx: core.Ctx, rng):
                 yield {"kind": "family", "family": fam, "cycle": 1, "wrappers": [w] * d, "async": False, "must_cut": fam != "call"}
 
 
+def long_mixed_cycles(ctx: core.Ctx):
+    """Long cycles of distinct partials that mix the ways of reaching a partial (include, render, render ... for), at block depth 0: the two
+    budgets (scopes pushed by include, contexts copied by render) must not multiply into more frames than the interpreter has."""
+    k = 0
+    for n in (5, 8, 10, 11, 12, 13, 16, 24):
+        for pattern in ("i*r", "i*R", "r*i", "iR", "iiR", "R*", "i*Ri*", "iriR"):
+            for is_async in (False, True):
+                k += 1
+                if k % ctx.nshards != ctx.shard:
+                    continue
+                if pattern == "i*r":
+                    tags = ["include"] * (n - 1) + ["render"]
+                elif pattern == "i*R":
+                    tags = ["include"] * (n - 1) + ["render-for"]
+                elif pattern == "r*i":
+                    tags = ["render"] * (n - 1) + ["include"]
+                elif pattern == "R*":
+                    tags = ["render-for"] * n
+                elif pattern == "i*Ri*":
+                    tags = ["include"] * (n // 2) + ["render-for"] + ["include"] * (n - n // 2 - 1)
+                else:
+                    unit = [{"i": "include", "r": "render", "R": "render-for"}[c] for c in pattern]
+                    tags = (unit * n)[:n]
+                yield {"kind": "family", "family": "mixed-long", "cycle": n, "tags": tags, "wrappers": [], "async": is_async, "must_cut": False}
+
+
 def tolerant_family_cases(ctx: core.Ctx):
     """The same families in the tolerant modes, where an error is reported and the render goes on with the next node: a template that calls
     itself twice (or three times) per level must still end, not try every branch of a tree as deep as the context depth limit."""
@@ -533,5 +566,6 @@ def tolerant_family_cases(ctx: core.Ctx):
 def cases(ctx: core.Ctx):
     rng = ctx.rng("cases")
     yield from tolerant_family_cases(ctx)
+    yield from long_mixed_cycles(ctx)
     yield from family_cases(ctx, rng)
     yield from parse_cases(ctx, rng)
